@@ -17,6 +17,10 @@ CONSTANTS Objs,        \* object references
           Types,       \* load types
           TypesOf,     \* Objs -> subset of Types: the types the calls load this object as
           Loads,       \* Objs -> [TypesOf -> "ok" | "err"]: uncached outcome of loading the object as a type
+          Partner,     \* Objs -> Objs \cup {0}: o and Partner[o] are /Pages nodes that name each other as /Parent (a cycle of two eager
+                       \* typed loads); 0 = none.  Loading one of them as "P" loads the other inside it, which meets the first again:
+                       \* "Recursive reference" - fatal in strict mode, swallowed by the optional /Parent entry in tolerant mode
+          TolerantOpts,\* subset of BOOLEAN: ParseOptions::tolerant() / strict()
           Streams,     \* stream references (filter chain = normal prefix + image suffix)
           MaxCalls,
           ObjCacheOpts, StmCacheOpts,   \* subsets of BOOLEAN
@@ -25,14 +29,14 @@ CONSTANTS Objs,        \* object references
 None == "none"
 NoEntry == [st |-> "none", t |-> "-"]
 
-VARIABLES ocOn, scOn,   \* configuration
+VARIABLES ocOn, scOn, tol,   \* configuration
           ocache,       \* Objs -> [st: "none" | "ok" | "err", t: type the entry was computed for]
           scache,       \* Streams -> None | "full" | "partial"
           ncalls,
           last,         \* [call, arg, typ, ans]
           path          \* history (all-behaviours mode: part of the state)
 
-vars == <<ocOn, scOn, ocache, scache, ncalls, last, path>>
+vars == <<ocOn, scOn, tol, ocache, scache, ncalls, last, path>>
 
 Rec(call, arg, typ, ans) ==
   /\ last' = [call |-> call, arg |-> arg, typ |-> typ, ans |-> ans]
@@ -41,8 +45,14 @@ Rec(call, arg, typ, ans) ==
 
 -----------------------------------------------------------------------------
 (* Prop: the uncached answers                                               *)
+\* a member of a /Parent cycle loaded on its own: "ok+" = the node with its parent (whose own parent entry was dropped)
+InCycle(o, t) == t = "P" /\ Partner[o] # 0
+LoadAlone(o, t) == IF InCycle(o, t) THEN (IF tol THEN "ok+" ELSE "err") ELSE Loads[o][t]
+\* the same node as it comes out of the nested load inside its partner: its parent entry is the one that was dropped
+LoadNested(o) == IF tol THEN "ok-" ELSE "err"
+IsOk(st) == st \in {"ok", "ok+", "ok-"}
 Uncached(call, arg, typ) ==
-  CASE call = "get"      -> Loads[arg][typ]
+  CASE call = "get"      -> LoadAlone(arg, typ)
     [] call = "resolve"  -> "ok"
     [] call = "data"     -> "full"
     [] call = "rawimage" -> "partial"
@@ -51,28 +61,37 @@ Uncached(call, arg, typ) ==
 -----------------------------------------------------------------------------
 (* Mech                                                                     *)
 
+\* The partner of a cycle member is loaded inside that member's load; the value it has there depends on the loads in progress
+\* and is not the value it has on its own: it must not be cached (deviation "nested_value_cached": get_or_compute stores
+\* whatever the nested call computed)
+WithNested(o, t, oc) ==
+  LET p == Partner[o] IN
+  IF InCycle(o, t) /\ "nested_value_cached" \in Dev /\ oc[p].st = "none" THEN [oc EXCEPT ![p] = [st |-> LoadNested(p), t |-> t]] ELSE oc
+
 \* Resolve::get::<T>(r)
 GetAs(o, t) ==
   /\ ncalls < MaxCalls
   /\ LET e == ocache[o] IN
      IF ~ocOn \/ e.st = "none"
-     THEN \* compute (and store, when the cache is on)
-          /\ ocache' = IF ocOn THEN [ocache EXCEPT ![o] = [st |-> Loads[o][t], t |-> t]] ELSE ocache
-          /\ Rec("get", o, t, Loads[o][t])
-     ELSE IF e.st = "ok"
-          THEN \* cached value: downcast; on a type mismatch the object is loaded uncached
-               /\ UNCHANGED ocache
-               /\ Rec("get", o, t, IF e.t = t THEN "ok" ELSE Loads[o][t])
+     THEN \* compute (and store, when the cache is on).  The partner of a cycle member is loaded inside this load; the value
+          \* it has there depends on the loads in progress and is not the value it has on its own: it must not be cached
+          \* (deviation "nested_value_cached": get_or_compute stores whatever the nested call computed)
+          /\ ocache' = IF ocOn THEN WithNested(o, t, [ocache EXCEPT ![o] = [st |-> LoadAlone(o, t), t |-> t]]) ELSE ocache
+          /\ Rec("get", o, t, LoadAlone(o, t))
+     ELSE IF IsOk(e.st)
+          THEN \* cached value: downcast; on a type mismatch the object is loaded uncached (its nested loads still go through the cache)
+               /\ ocache' = IF e.t = t THEN ocache ELSE WithNested(o, t, ocache)
+               /\ Rec("get", o, t, IF e.t = t THEN e.st ELSE LoadAlone(o, t))
           ELSE \* cached error
-               /\ UNCHANGED ocache
-               /\ Rec("get", o, t, IF "error_cached_across_types" \in Dev \/ e.t = t THEN "err" ELSE Loads[o][t])
-  /\ UNCHANGED <<ocOn, scOn, scache>>
+               /\ ocache' = IF "error_cached_across_types" \in Dev \/ e.t = t THEN ocache ELSE WithNested(o, t, ocache)
+               /\ Rec("get", o, t, IF "error_cached_across_types" \in Dev \/ e.t = t THEN "err" ELSE LoadAlone(o, t))
+  /\ UNCHANGED <<ocOn, scOn, tol, scache>>
 
 \* Resolve::resolve(r): never cached
 Resolve(o) ==
   /\ ncalls < MaxCalls
   /\ Rec("resolve", o, "-", "ok")
-  /\ UNCHANGED <<ocOn, scOn, ocache, scache>>
+  /\ UNCHANGED <<ocOn, scOn, tol, ocache, scache>>
 
 \* get_data_or_decode(id, range, filters) with `want` = what the caller's filter subset produces
 Decode(s, want) ==
@@ -88,24 +107,24 @@ Data(s) ==
   /\ ncalls < MaxCalls
   /\ Fill(s, "full")
   /\ Rec("data", s, "-", Decode(s, "full"))
-  /\ UNCHANGED <<ocOn, scOn, ocache>>
+  /\ UNCHANGED <<ocOn, scOn, tol, ocache>>
 
 \* ImageXObject::raw_image_data: only the filters before the image codec
 RawImage(s) ==
   /\ ncalls < MaxCalls
   /\ Fill(s, "partial")
   /\ Rec("rawimage", s, "-", Decode(s, "partial"))
-  /\ UNCHANGED <<ocOn, scOn, ocache>>
+  /\ UNCHANGED <<ocOn, scOn, tol, ocache>>
 
 \* ImageXObject::image_data: raw_image_data, then the image codec on top
 Image(s) ==
   /\ ncalls < MaxCalls
   /\ Fill(s, "partial")
   /\ Rec("image", s, "-", IF Decode(s, "partial") = "partial" THEN "full" ELSE "bad")
-  /\ UNCHANGED <<ocOn, scOn, ocache>>
+  /\ UNCHANGED <<ocOn, scOn, tol, ocache>>
 
 Init ==
-  /\ ocOn \in ObjCacheOpts /\ scOn \in StmCacheOpts
+  /\ ocOn \in ObjCacheOpts /\ scOn \in StmCacheOpts /\ tol \in TolerantOpts
   /\ ocache = [o \in Objs |-> NoEntry]
   /\ scache = [s \in Streams |-> None]
   /\ ncalls = 0
@@ -124,7 +143,7 @@ Spec == Init /\ [][Next]_vars
 Invisible == last.call # "init" => last.ans = Uncached(last.call, last.arg, last.typ)
 
 \* cached entries are truthful about the type they were computed for
-CacheTruthful == \A o \in Objs : ocache[o].st # "none" => ocache[o].st = Loads[o][ocache[o].t]
+CacheTruthful == \A o \in Objs : ocache[o].st # "none" => ocache[o].st = LoadAlone(o, ocache[o].t)
 
-View == <<ocOn, scOn, ocache, scache, ncalls, last>>
+View == <<ocOn, scOn, tol, ocache, scache, ncalls, last>>
 =============================================================================
